@@ -253,6 +253,19 @@ func matchFnKey(w *World, keys ...string) func(ssa.CallInstruction) bool {
 	}
 }
 
+// matchDecoder: a call to a function of the module's xml package whose first result is a pointer to the given
+// wire type (the request decoder, whatever it is called).
+func matchDecoder(w *World, typ string) func(ssa.CallInstruction) bool {
+	return func(c ssa.CallInstruction) bool {
+		f := calleeOf(c)
+		if f == nil || f.Pkg == nil || f.Pkg.Pkg.Path() != modPath+"/pkg/provider/xml" {
+			return false
+		}
+		res := f.Signature.Results()
+		return res.Len() >= 1 && typeKey(res.At(0).Type()) == typ
+	}
+}
+
 func matchAnyCall(ms ...func(ssa.CallInstruction) bool) func(ssa.CallInstruction) bool {
 	return func(c ssa.CallInstruction) bool {
 		for _, m := range ms {
